@@ -577,6 +577,14 @@ def oracle_c20(world):
             if len(cf) > 1 or (len(cf) == 0 and not raced):
                 V('dispose_did_not_cancel', 'interaction %d: disposing the result observable produced %d CANCEL frames' % (iid, len(cf)),
                   cancel['seq'], **facts)
+        # nothing is asked for on a stream after its CANCEL has been queued
+        cq = next((e for e in hb if e['k'] == 'enq' and e['ep'] == 'client' and e['f']['sid'] == sid and e['f']['type'] == 'CANCEL'), None)
+        if cq is not None:
+            late_n = [e for e in hb if e['k'] == 'enq' and e['ep'] == 'client' and e['f']['sid'] == sid and e['f']['type'] == 'REQUEST_N'
+                      and e['seq'] > cq['seq']]
+            if late_n:
+                V('credit_after_cancel', 'interaction %d: REQUEST_N(%d) queued after the CANCEL of the same stream'
+                  % (iid, late_n[0]['f'].get('n', -1)), late_n[0]['seq'], limit=ia.get('limit'), **facts)
     return out
 
 
@@ -585,8 +593,8 @@ def oracle_c09_rx(world):
     adapter's cancel(). The disposal rules of the C20 oracle, reported under C09."""
     out = []
     for v in oracle_c20(world):
-        if v.cls in ('C20.dispose_did_not_cancel', 'C20.signal_after_dispose', 'C20.producer_not_stopped'):
+        if v.cls in ('C20.dispose_did_not_cancel', 'C20.signal_after_dispose', 'C20.producer_not_stopped', 'C20.credit_after_cancel'):
             cls = {'C20.dispose_did_not_cancel': 'C09.rx_dispose_did_not_cancel', 'C20.signal_after_dispose': 'C09.rx_signal_after_dispose',
-                   'C20.producer_not_stopped': 'C09.rx_producer_not_stopped'}[v.cls]
+                   'C20.producer_not_stopped': 'C09.rx_producer_not_stopped', 'C20.credit_after_cancel': 'C09.rx_credit_after_cancel'}[v.cls]
             out.append(Violation('C09', cls, v.msg, v.seq, **v.facts))
     return out
